@@ -298,3 +298,33 @@ def reply_needs_request_authenticator_rule(rep, u, consts, fname="radius_pkt_ini
                 rep.violated("R-VERIFY", fn, inst, desc, "status 0 with a zero authenticator: the Response Authenticator is then MD5 over 16 zero bytes instead of the Request "
                              "Authenticator and no verifier accepts the reply")
     return n
+
+
+
+def reply_code_rule(rep, u, consts, fname="radius_pkt_authenticator_chk"):
+    """verified against a request (pkt_req given) a packet is accepted only with a reply code: all six request codes are
+    refused even when their authenticator compares equal (Accounting/Disconnect/CoA requests are signed without the request
+    authenticator, so the client's own request echoed back would verify), all eight reply codes pass to the comparison"""
+    from rules import r_stride
+    fn = _need(u, fname)
+    rep.functions.add(fname)
+    pn = [p["n"] for p in fn.params]
+    n = 0
+    for names, want_ok in ((REPLY_CODES, True), (RANDOM_AUTH_CODES + REQUEST_CODES, False)):
+        for nm in names:
+            code = consts.get("RADIUS_PKT_TYPE_" + nm)
+            if code is None:
+                raise driver.AnalysisBroken("RADIUS_PKT_TYPE_%s not evaluated" % nm)
+            pe = r_stride.PE(u, call_default={"radius_pkt_authenticator_calc": 0, "timingsafe_bcmp": 0, "timingsafe_memcmp": 0, "memcmp": 0})
+            bind = {pn[0]: 0x40000, "%s->code" % pn[0]: code, pn[1]: 0x3000, pn[2]: 8, pn[3]: 0, pn[4]: 0x50000}
+            ev, ret = pe.trace(fn, bind)
+            n += 1
+            inst = "as-reply[%s]" % nm
+            desc = "%s(code %s, pkt_req given, authenticator equal) is %s" % (fname, nm, "accepted" if want_ok else "refused")
+            if isinstance(ret, str):
+                rep.undecided("R-VERIFY", fn, inst, desc, ret)
+            elif (ret == 0) == want_ok:
+                rep.proved("R-VERIFY", fn, inst, desc, "status %s" % ret)
+            else:
+                rep.violated("R-VERIFY", fn, inst, desc, "status %s: %s" % (ret, "the client's own request, echoed from a spoofed server address, completes the query without the secret" if not want_ok else "a genuine reply is refused"))
+    return n
